@@ -99,12 +99,12 @@ func verifWire(c *http.Request) (*http.Request, error) {
 
 func Verif_C05_roundtrip() {
 	L := verifParam("len")
-	// Fan-out: case = method x focus. With param "product" = 0 the focus field
-	// ranges over its whole alphabet / range and 1..len bytes while the other
-	// three are symbolic too but drawn from one character class ('a'..'z', one
-	// byte; N one digit), so the path count is the SUM of the per-field case
-	// splits; with "product" = 1 all four fields are wide at once (len bytes
-	// each; focus then only splits N's sign for the fan-out).
+	// Fan-out: case = method x focus. With param "product" = 0 (H05r) the focus
+	// field ranges over its whole alphabet / range and 1..len bytes while the
+	// other three are symbolic too but drawn from one character class ('a'..'z',
+	// one byte; N one digit), so the path count is the SUM of the per-field case
+	// splits; with "product" = 1 (H05rx) all four fields are wide at once and
+	// focus only splits N's sign and digit count for the fan-out.
 	product := verifParam("product") == 1
 	c := verifCase(8)
 	method := http.MethodGet
@@ -115,13 +115,13 @@ func Verif_C05_roundtrip() {
 
 	var sent verifReq
 	if product || focus == 0 {
-		sent.Key = verifSymStr("key", L, 0x00, 0xff)
+		sent.Key = verifSymStr("key", L, 0x00, byte(verifParam("hi")))
 		verifReach("key-wide")
 	} else {
 		sent.Key = verifSymStr("key", 1, 'a', 'z')
 	}
 	if product || focus == 1 {
-		sent.Q = verifSymStr("q", L, 0x00, 0xff)
+		sent.Q = verifSymStr("q", L, 0x00, byte(verifParam("hi")))
 		verifReach("q-wide")
 	} else {
 		sent.Q = verifSymStr("q", 1, 'a', 'z')
@@ -129,7 +129,7 @@ func Verif_C05_roundtrip() {
 	if product || focus == 2 {
 		// header field values: visible ASCII and interior spaces (RFC 9110 field-value;
 		// the wire strips leading/trailing whitespace and forbids control bytes)
-		sent.Tag = verifSymStr("tag", L, 0x20, 0x7e)
+		sent.Tag = verifSymStr("tag", verifParam("tlen"), 0x20, 0x7e)
 		verifAssume(sent.Tag[0] != ' ')
 		verifAssume(sent.Tag[len(sent.Tag)-1] != ' ')
 		verifReach("tag-wide")
@@ -138,9 +138,11 @@ func Verif_C05_roundtrip() {
 	}
 	sent.N = verifInt("n")
 	if product {
+		// fan-out over N's sign (focus%2) and digit count (focus/2)
 		verifAssume(sent.N >= -99)
 		verifAssume(sent.N <= 99)
 		verifAssume((sent.N < 0) == (focus%2 == 1))
+		verifAssume((sent.N > 9 || sent.N < -9) == (focus/2 == 1))
 	} else if focus == 3 {
 		verifAssume(sent.N >= -verifParam("nmax"))
 		verifAssume(sent.N <= verifParam("nmax"))
